@@ -1,10 +1,13 @@
 /-
 C02 driver: evaluate a query term with the reference semantics (`Gms.Rel.eval`) and print the
 canonical result. Payload: `(c02 (ordered 0|1) (db …) (q <query>) (sql x…))` (`sql` is
-informative only). There is no Impl model of the engine: implModelObs = specObs.
+informative only), optional `(feat f…)` = spelling features reported by the SQL printer. There is
+no Impl model of the engine: implModelObs = specObs, except on the known-defect regions of
+Gms/Model/SqlQuirks.lean, where implModelObs is the reference evaluation of the rewritten term.
 -/
 import Gms.Driver.SqlProto
-open Gms.Proto Gms.Sql Gms.Rel Gms.SqlProto
+import Gms.Model.SqlQuirks
+open Gms.Proto Gms.Sql Gms.Rel Gms.SqlProto Gms.Quirks
 
 def handle (p : List Sexp) : String :=
   match p with
@@ -12,7 +15,12 @@ def handle (p : List Sexp) : String :=
     let ordered := fieldArgs items "ordered" == [Sexp.atom "1"]
     match (field items "db").bind db?, (fieldArgs items "q").head?.bind query? with
     | some (tys, db), some q =>
-      if check tys db q then answer (showRows ordered (eval db q))
+      if check tys db q then
+        let feats := (fieldArgs items "feat").filterMap Sexp.str?
+        let spec := showRows ordered (eval db q)
+        match region feats q with
+        | none => answer spec
+        | some r => answer (showRows ordered (implEval db feats q)) spec r.name
       else answer "ill-typed"
     | _, _ => answer "bad-case"
   | _ => answer "bad-case"
